@@ -119,6 +119,39 @@ func ruleC07R1(c *Ctx) {
 			c.R.Bad(rule, key, pos, fmt.Sprintf("`not` shares an evaluation site with other keywords (%v); its annotations must be dropped separately", s.SchemaSrc))
 			continue
 		}
+		// one evaluation site applies one keyword, unless its sources are alternatives of which only one can be
+		// selected (then/else by the verdict of `if`; the lexical target, the dynamic-scope hit and the lexical
+		// fallback of one $dynamicRef): a site that picks "the $ref target, or else the $dynamicRef target"
+		// drops one of two keywords that can both be present
+		if len(s.SchemaSrc) > 1 {
+			groups := [][]string{
+				{"Schema.Then", "Schema.Else"},
+				{"resolvedInfo.resolvedDynamicRef", "anchorInfo.schema", "resolvedInfo.dynamicRefFallback"},
+				{"Schema.Items", "Schema.AdditionalItems"}, // draft-07 single-schema items vs the tail after array-form items
+			}
+			okAlt := false
+			for _, g := range groups {
+				all := true
+				for _, src := range s.SchemaSrc {
+					in := false
+					for _, x := range g {
+						if x == src {
+							in = true
+						}
+					}
+					if !in {
+						all = false
+					}
+				}
+				if all {
+					okAlt = true
+				}
+			}
+			if !okAlt {
+				c.R.Bad(rule, key, pos, fmt.Sprintf("one evaluation site chooses between the subschemas of different keywords (%v) that can be present together: whichever is not chosen is never applied", s.SchemaSrc))
+				continue
+			}
+		}
 		var class string
 		for k := range classes {
 			class = k
